@@ -9,4 +9,10 @@ GenNext == Next /\ hist' = Append(hist, Clean(last'))
 GenSpec == Init /\ hist = <<>> /\ [][GenNext]_<<vars, hist>>
 Quiet == \A t \in Callers : th'[t].pc = "idle"
 Emit == IF Quiet /\ Len(hist') > 0 /\ RandomElement(1..Thin) = 1 THEN PrintT(<<"BEH", ToJson(hist')>>) ELSE TRUE
+\* simulation (tlc -simulate): deep random behaviours, printed each time they come to rest beyond SimLen steps.
+\* The breadth-first emission above gives, per state of the VIEW, the SHORTEST behaviour that reaches it: a step that
+\* leaves the VIEW unchanged (a failed fetch, a failed fill) is never part of one, so what comes AFTER such a step
+\* is only exercised by these walks.
+CONSTANT SimLen
+EmitSim == IF Quiet /\ Len(hist') >= SimLen THEN PrintT(<<"BEH", ToJson(hist')>>) ELSE TRUE
 =============================================================================
